@@ -85,12 +85,19 @@ LAYOUTS_Q = [[], [14], [18], [20], [7], [15], [14, 7], [20, 7, 18], [15, 14]]
 LAYOUTS_T = LAYOUTS_Q + [[14, 14], [7, 7], [18, 7, 7, 14], [20, 20, 7, 15], [15, 15], [14, 18, 20, 7]]
 
 
-@harness("C09.disks", quick=[dict(layouts=l) for l in LAYOUTS_Q], thorough=[dict(layouts=l) for l in LAYOUTS_T])
-def disks(ctx, layouts):
+NAMED_Q = [dict(layouts=[14, 14, 14], names=["md12", "md127", "md12p1"]), dict(layouts=[20, 20, 20], names=["dm-1", "dm-10", "dm-2"])]
+NAMED_T = NAMED_Q + [dict(layouts=[18, 18, 18, 18], names=["nvme0n1", "nvme0n1p1", "nvme0n10", "nvme0n10p2"]), dict(layouts=[14, 14, 14], names=["loop1", "loop10", "loop11"]),
+                     dict(layouts=[14, 7, 14], names=["sda", "sda1", "sda10"]), dict(layouts=[14, 14], names=["mmcblk0", "mmcblk0p1"])]
+
+
+@harness("C09.disks", quick=[dict(layouts=l) for l in LAYOUTS_Q] + NAMED_Q, thorough=[dict(layouts=l) for l in LAYOUTS_T] + NAMED_T)
+def disks(ctx, layouts, names=None):
+    """names: device names for which guessing "is this a partition of that disk?" from the spelling goes wrong (md12 / md127, dm-1 /
+    dm-10 are all whole devices): what is a whole disk is what /sys/block lists, whatever the names look like"""
     k = simk.Kernel(ctx)
     lines, want, whole, lay_of, shifted = [], {}, {}, {}, {}
     for i, lay in enumerate(layouts):
-        name = {7: f"sda{i}", 15: f"hd{chr(97 + i)}"}.get(lay, f"sd{chr(97 + i)}")
+        name = names[i] if names else {7: f"sda{i}", 15: f"hd{chr(97 + i)}"}.get(lay, f"sd{chr(97 + i)}")
         if lay == 15:     # 2.4: major minor #blocks name + 11 stats
             st = [ctx.int(f"d{i}_{j}", 0, 2**64 - 1) for j in range(11)]
             blocks = ctx.int(f"d{i}_blocks", 0, 2**40)
@@ -138,12 +145,14 @@ class _Statvfs:
     pass
 
 
-@harness("C09.disk_usage", quick=[dict(frsize=f) for f in (512, 4096)], thorough=[dict(frsize=f) for f in (1, 512, 4096, 65536, 1048576)])
-def disk_usage(ctx, frsize):
+@harness("C09.disk_usage", quick=[dict(frsize=f) for f in (512, 4096)] + [dict(frsize=512, bsize=1048576), dict(frsize=4096, bsize=512)],
+         thorough=[dict(frsize=f) for f in (1, 512, 4096, 65536, 1048576)] + [dict(frsize=f, bsize=b) for f, b in ((512, 1048576), (4096, 512), (1024, 4096), (4096, 0), (1, 65536))])
+def disk_usage(ctx, frsize, bsize=None):
+    """block counts are in units of f_frsize (POSIX statvfs); f_bsize, the preferred I/O size, may differ (NFS, FUSE) and plays no part"""
     k = simk.Kernel(ctx)
     st = _Statvfs()
     st.f_frsize = frsize
-    st.f_bsize = frsize
+    st.f_bsize = frsize if bsize is None else bsize
     st.f_blocks = ctx.int("f_blocks", 0, 2**64 - 1)
     st.f_bfree = ctx.int("f_bfree", 0, 2**64 - 1)
     st.f_bavail = ctx.int("f_bavail", 0, 2**64 - 1)
